@@ -337,6 +337,9 @@ pub fn run(ctx: &mut Ctx) {
 				ctx.count("frames_compared", o.frames);
 				if o.inconclusive {
 					ctx.inconclusive += 1;
+					if ctx.inconclusive <= 3 {
+						ctx.note(&format!("inconclusive (the decoder thread did not park, end or fail within 5 s of waiting): {:?}", p));
+					}
 				}
 				if o.nonsilent > 0 {
 					ctx.distinct_str(&format!("{:?}|{}|{}|{}|{}|{}", p.packets.len().min(3), p.seek_gran, p.lp.is_some(), p.slice.is_some(), (p.rate * 2.0) as i64, p.len > 16384));
